@@ -956,12 +956,33 @@ def r11_exact_parsing(ctx, prog, cats):
         if fi.module != cats.name:
             continue
         for c in walk_no_nested(fi.node):
-            if not (isinstance(c, ast.Call) and
-                    norm(c.func).split(".")[-1] == "read"):
+            if not isinstance(c, ast.Call):
                 continue
-            n += 1
+            kwsets = [c.keywords]
+            mult = 1
+            if isinstance(c.func, ast.Name):
+                # a reader chosen first and called later:
+                #   reader = ascii.read | Table.read ; reader(filename)
+                defs = [st.value for st in walk_no_nested(fi.node)
+                        if isinstance(st, ast.Assign) and
+                        any(isinstance(t, ast.Name) and t.id == c.func.id
+                            for t in st.targets)]
+                readers = [d for d in defs
+                           if isinstance(d, ast.Attribute) and
+                           d.attr == "read" or isinstance(d, ast.Call) and
+                           any(isinstance(a, ast.Attribute) and
+                               a.attr == "read" for a in d.args)]
+                if not defs or len(readers) != len(defs):
+                    continue
+                mult = len(defs)
+                for d in defs:
+                    if isinstance(d, ast.Call):      # partial(ascii.read, ..)
+                        kwsets.append(d.keywords)
+            elif norm(c.func).split(".")[-1] != "read":
+                continue
+            n += mult
             bad = []
-            for k in c.keywords:
+            for k in [k_ for ks in kwsets for k_ in ks]:
                 if k.arg == "fast_reader" and isinstance(k.value, ast.Dict):
                     for kk, vv in zip(k.value.keys, k.value.values):
                         if isinstance(kk, ast.Constant) and \
